@@ -335,8 +335,8 @@ def r5(ctx):
 
 
 def r6(ctx):
-    from .common import enum_identity
-    enum_identity(ctx, "C05.R6", ("connection", "client"))
+    from .common import repo_idioms
+    repo_idioms(ctx, "C05.R6", ("connection", "client"))
 
 
 RULES = [("C05.R6", r6), ("C05.R1", r1), ("C05.R2", r2), ("C05.R3", r3), ("C05.R4", r4), ("C05.R5", r5)]
